@@ -8,7 +8,7 @@ TARGETS = ['Props/C03.vo', 'Corr/XMd.vo']
 PROPS_FILE = 'Props/C03.v'
 RULE = ('documented value kinds: a pool of scalars (+-0.0, nan, +-inf, denormal, 1e300, 2^63-1, -2^63, 2^53, empty / non-ASCII / 300-char '
         'strings, None, bools, complex), arrays of 10 dtypes incl. 0-d, empty, big-endian, every tuple / list form (empty, numbers '
-        'of one kind or mixed, arrays, strings, tuples of flat tuples), dicts of these; each leaf kind at top level and under 1..6 '
+        'of one kind or mixed, arrays, strings, tuples of flat tuples; lists / tuples of 10-21 distinct members), dicts of these; each leaf kind at top level and under 1..6 '
         'levels of dict nesting; Metadata attached to the root, an inner node or a leaf Array, with a second Metadata beside it; '
         'the raw file item, the read-back value and a second generation are recorded; non-trivial = distinct values that are a '
         'sequence, an array or a dict')
@@ -30,6 +30,17 @@ def cases(seed, tier):
         d = rng.choice([1, 2, 3, 6])
         out.append({'v': M.nest(v, d, rng), 'where': rng.choice(['root', 'node', 'leaf'])})
     out.append({'v': ['tuple', [['int', 2 ** 53 + 1], ['float', (0.5).hex()]]], 'where': 'root'})
+    # long sequences stored one dataset per member (member names '0'..'9','10',...): order, kind and length survive
+    for L in (10, 11, 12, 21):
+        for kind in ('list', 'tuple'):
+            seqs = [[['str', 'item %02d %s' % (i, 'zyx'[i % 3])] for i in range(L)],
+                    [['arr', 'int64' if i % 2 else 'float32', [i % 4 + 1], i] for i in range(L)]]
+            if kind == 'tuple':
+                seqs.append([['tuple', [['int', i], ['int', 100 - i]]] for i in range(L)])
+            for q in seqs:
+                v = [kind, q]
+                out.append({'v': v, 'where': rng.choice(['root', 'node', 'leaf'])})
+                out.append({'v': M.nest(v, rng.choice([1, 2]), rng), 'where': 'node'})
     out.append({'v': ['dict', [['a', ['str', '_None']]]], 'where': 'node'})
     n = 500 if tier == 'quick' else 40000
     for _ in range(n):
